@@ -146,8 +146,74 @@ def check_vector_wrapper(case, ctx):
     return {"nontrivial": True, "classes": classes + ["raised:" + got[1]]}
 
 
+@st.composite
+def ufunc_count_case(draw):
+    """Several inputs whose signature names distinct axes: supplying one and the same grid axis for two of them is a wrong
+    number of axes (the signature needs independent ones)."""
+    return {"kind": "ufunc-axis-count", "n": draw(st.integers(2, 4)), "route": draw(st.sampled_from(["function", "method", "decorator"])),
+            "out": draw(st.sampled_from(["first", "scalar"])), "three": draw(st.booleans()),
+            "names": draw(st.permutations(["a", "b", "c", "X", "Y", "lon"]))[:3], "repeat_of": draw(st.sampled_from([0, 1])),
+            "pos": draw(st.sampled_from(["center", "left"]))}
+
+
+def check_ufunc_count(case, ctx):
+    import warnings
+
+    import numpy as np
+    import xarray as xr
+    from xgcm import Grid, as_grid_ufunc
+    from xgcm.grid_ufunc import apply_as_grid_ufunc
+
+    n, pos = case["n"], case["pos"]
+    axes = ["X", "Y", "Z"]
+    coords = {}
+    gc = {}
+    for a in axes:
+        c, l = a.lower() + "c", a.lower() + "l"
+        coords[c] = (c, np.arange(n) + 0.5)
+        coords[l] = (l, np.arange(n) * 1.0)
+        gc[a] = {"center": c, "left": l}
+    grid = Grid(xr.Dataset(coords=coords), coords=gc, periodic=False, autoparse_metadata=False)
+    k = 3 if case["three"] else 2
+    names = list(case["names"])[:k]
+    sig = ",".join(f"({d}:{pos})" for d in names) + "->" + (f"({names[0]}:{pos})" if case["out"] == "first" else "()")
+
+    def func(*arrs):
+        tot = arrs[0] if case["out"] == "first" else arrs[0].sum(-1)
+        for x in arrs[1:]:
+            tot = tot * x.sum(-1)[..., None] if case["out"] == "first" else tot * x.sum(-1)
+        return tot
+
+    def call(real):
+        das = [xr.DataArray(np.arange(1.0, n + 1.0) * (i + 1), dims=[gc[r][pos]]) for i, r in enumerate(real)]
+        axis = [(r,) for r in real]
+        with warnings.catch_warnings():
+            warnings.simplefilter("ignore")
+            try:
+                if case["route"] == "function":
+                    return ("ok", apply_as_grid_ufunc(func, *das, axis=axis, grid=grid, signature=sig))
+                if case["route"] == "method":
+                    return ("ok", grid.apply_as_grid_ufunc(func, *das, axis=axis, signature=sig))
+                return ("ok", as_grid_ufunc(signature=sig)(func)(grid, *das, axis=axis))
+            except Exception as e:  # noqa: BLE001
+                return ("raise", type(e).__name__)
+
+    good = axes[:k]
+    classes = ["edit:ufunc-same-grid-axis-for-two-signature-axes", f"fn:ufunc/{case['route']}", "family:ufunc-axis-count"]
+    if call(good)[0] != "ok":
+        ctx.note("unedited_call_does_not_return")
+        return {"nontrivial": False, "classes": ["unedited-refused"] + classes}
+    bad = list(good)
+    bad[-1] = good[case["repeat_of"] % (k - 1)]   # the last input names the axis of an earlier one
+    got = call(bad)
+    if got[0] == "ok":
+        raise Violation("an ill-posed request was answered instead of refused", edit="one grid axis supplied for two distinct signature axes",
+                        signature=sig, axis=[[r] for r in bad], route=case["route"], answer=list(getattr(got[1], "dims", ())))
+    return {"nontrivial": True, "classes": classes + ["raised:" + got[1]]}
+
+
 def strategy(tier):
-    return st.integers(0, 9).flatmap(lambda k: vector_wrapper_case() if k == 0 else strategy_impl(tier))
+    return st.integers(0, 19).flatmap(lambda k: vector_wrapper_case() if k in (0, 1) else (ufunc_count_case() if k == 2 else strategy_impl(tier)))
 
 
 def pick(seq, k):
@@ -363,6 +429,8 @@ def materialise(sc):
 def check(case, ctx):
     if case.get("kind") == "vector-wrapper":
         return check_vector_wrapper(case, ctx)
+    if case.get("kind") == "ufunc-axis-count":
+        return check_ufunc_count(case, ctx)
     prep = prepare(case)
     edit = case["edit"]
     fn = case["scenario"]["calls"][case["call"]]["fn"]
